@@ -1243,8 +1243,11 @@ def get_padded_extrema(X, pad_width=2, mode='peaks', parabolic_extrema=False,
         mag_pad_opts = mag_pad_opts.copy()  # Don't work in place...
     mag_pad_mode = mag_pad_opts.pop('mode')
 
-    if X.ndim == 2:
+    if X.ndim == 2 and X.shape[1] == 1:
         X = X[:, 0]
+    elif X.ndim != 1:
+        msg = "Input 'X' {0} must be a vector or 2d with singleton second dim"
+        raise ValueError(msg.format(X.shape))
 
     if mode == 'peaks':
         max_locs, max_ext = _find_extrema(X, parabolic_extrema=parabolic_extrema)
